@@ -90,6 +90,21 @@ def cases(seed, tier):
                     b[pos] = r.choice(b"Xx0 ")
                     total = bytes(b) + extra
                     exp = {"kind": "malformed", "payload": payload, "delivered_max": sum(len(c) for c in chunks[:j + 1])}
+                elif r.random() < 0.3:
+                    # the size line of chunk j (or of the last-chunk) is replaced by a numeral of 2^64 or more whose low 64 bits
+                    # are the right size: more hex digits than a usize holds is malformed, never reduced modulo 2^64
+                    j = r.randrange(len(chunks) + 1)
+                    off = 0
+                    for idx in range(j):
+                        line_end = enc.index(b"\r\n", off) + 2
+                        off = line_end + len(chunks[idx]) + 2
+                    eol = enc.index(b"\r\n", off)
+                    semi = enc.find(b";", off, eol)
+                    size_end = semi if semi >= 0 else eol
+                    n_ = len(chunks[j]) if j < len(chunks) else 0
+                    big = (b"%x" % ((r.choice([1, 1, 0xf, 0x123]) << 64) + n_))
+                    total = enc[:off] + big + enc[size_end:] + extra
+                    exp = {"kind": "malformed", "payload": payload, "delivered_max": sum(len(c) for c in chunks[:j])}
                 else:
                     j = r.randrange(len(chunks) + 1)
                     off = 0
